@@ -22,8 +22,23 @@ def damage (j : Json) : Json :=
   Json.mkObj [("spec_ok", !dom || ok), ("in_domain", dom), ("known", Json.arr #[]),
     ("why", if ok then "" else why first last k before after), ("nontrivial", dom && !after.errors.isEmpty)]
 
+/-- op c07.tight: the same for journals without blank lines between entries. -/
+def tight (j : Json) : Json :=
+  let impl := jget j "impl"
+  let before := viewOf (jget impl "before")
+  let after := viewOf (jget impl "after")
+  let first := jnat j "first"
+  let last := jnat j "last"
+  let k := jnat j "k"
+  let col1 := jnat j "col1" == 1
+  let dom := before.errors.isEmpty
+  let ok := containedTight first last k col1 before after
+  Json.mkObj [("spec_ok", !dom || ok), ("in_domain", dom), ("known", Json.arr #[]),
+    ("why", if ok then "" else whyTight first last k col1 before after), ("nontrivial", dom && !after.errors.isEmpty)]
+
 def handle (op : String) (j : Json) : Option Json :=
   match op with
   | "c07.damage" => some (damage j)
+  | "c07.tight" => some (tight j)
   | _ => none
 end HL.Driver.C07
